@@ -256,6 +256,8 @@ def run_case(case):
             for a_, b_ in ((0, 1), (1, 2)):
                 if errs[b_] > floor * 3 and errs[a_] > errs[b_]:
                     qs.append(math.log(errs[a_] / errs[b_], 2))          # usable pair: the finer error is still above the rounding floor
+                elif errs[a_] > floor * 30:
+                    qs.append(math.log(errs[a_] / (floor * 3), 2))       # the finer run reached the floor: a lower bound of the order
                 if errs[a_] > max(floor * 30, 1e-10) and errs[b_] > floor * 3:
                     strong = True                                        # and at least one pair sits well above it
             if qs and strong:
@@ -291,7 +293,7 @@ def run_case(case):
                         w_ = max(w_, max(math.sqrt((p.x - q[0]) ** 2 + (p.y - q[1]) ** 2 + (p.z - q[2]) ** 2) for p, q in zip(sc_.particles, seg[k4])) / size)
                     worst[lab] = w_
                 counters['corrector_comparisons'] = counters.get('corrector_comparisons', 0) + 1
-                if worst['corrected'] > 10 * worst['plain'] + 1e-9:
+                if worst['corrected'] > 30 * worst['plain'] + 1e-9:
                     add('converge:corrector-degrades-accuracy:whfast', '%s: max error over 4 output times with corrector %.3e, without %.3e' % (desc, worst['corrected'], worst['plain']))
             cells.add(json.dumps([integ, sorted((k_, str(v_)) for k_, v_ in opts.items() if 'scale' not in k_), tp, direction]))
     for v in viol:
